@@ -142,6 +142,14 @@ def eot(repo, rep):
         rep.violation("R-ANGLE-WRAP", "Sun." + q, "no-reduction", "the equation of time is not reduced to (-180, 180] degrees before conversion to minutes")
     elif not evs:
         rep.ok("R-ANGLE-WRAP", "Sun." + q, "+-180 reduction applied to a plain number")
+    # R-WRAP-SELF (package-wide): E - 360*round(E'/360) must use E' == E
+    rep.rule("R-WRAP-SELF", "in the reduction idiom E - 360*round(E'/360) the rounded quotient is taken from E itself")
+    ws = an.events_for("wrapself")
+    for e in ws:
+        rep.violation("R-WRAP-SELF", e.site.split(".<locals>")[0], e.key, e.msg, construct="line %d" % e.node.lineno)
+    if not ws:
+        rep.ok("R-WRAP-SELF", "package", "%d reduction idioms, each reducing its own operand" % getattr(an, "wrap_sites", 0))
+    rep.floor("reduction idioms E - 360*round(E/360)", getattr(an, "wrap_sites", 0), 3)
     # package-wide: no other site
     for e in an.events_for("anglewrap"):
         if e.site != "Sun." + q:
